@@ -100,6 +100,12 @@ def build_batch(cfg):
         disp = cfg.get("distort", 0.0)
         if disp:
             r = r + np.array([[rng.uniform(-disp, disp) for _ in range(3)] for _ in range(len(z))])
+        sad = cfg.get("saddle")
+        if sad and int(sad["member"]) == i and len(z) == 3:
+            # a triatomic placed next to the collinear stationary point of the stub's all-pairs potential (end atoms
+            # at +-x, central atom displaced sideways by eps): its force starts tiny, grows while it leaves the
+            # saddle and only then relaxes
+            r = np.array([[0.0, float(sad["eps"]), 0.0], [-float(sad["x"]), 0.0, 0.0], [float(sad["x"]), 0.0, 0.0]])
         rot = rotation_matrix(None if cfg.get("rotate") is None else (cfg["rotate"], i))
         r = r @ rot.T
         sp[i, : len(z)] = z
